@@ -1,6 +1,7 @@
 import IxpeVerif.RealInst
 import IxpeVerif.Model.Kislat
 import IxpeVerif.Lemmas.Basic
+import IxpeVerif.Gen.Formulas
 /-!
 # C02 — polarization cubes implement the Kislat et al. (2015) estimator
 
@@ -143,6 +144,47 @@ example : (1:ℝ) < 100 ∧ (0:ℝ) < 0.3 ∧ (Real.sqrt (30 * 30 + 0 * 0) / 100
   have : Real.sqrt (30 * 30 + 0 * 0) = 30 := by
     rw [show (30:ℝ) * 30 + 0 * 0 = 30 ^ 2 by norm_num]; exact Real.sqrt_sq (by norm_num)
   rw [this]; norm_num
+
+/-! ### T-tie: the definitions regenerated from `kislat2015.py` on every run *are* the model the theorems above speak about
+
+`Gen.calculate_polarization`, `Gen.calculate_stokes_errors`, `Gen.calculate_mdp99`, `Gen.calculate_n_eff` are the translator's per-element
+reading of the masked-array code (`x[mask] = e` ↦ `if mask then e else x`).  These equalities make every theorem of this file (and the
+rotation theorems of C06 that use `Kislat.polarization`) a statement about the current source: an edit of a formula or of a mask in the
+Python breaks one of them. -/
+
+theorem gen_polarization_eq_model (I Q U mu W2 : ℝ) (d : Bool) :
+    Gen.calculate_polarization I Q U mu W2 d =
+      ((polarization I Q U mu W2 d).pd, (polarization I Q U mu W2 d).pdErr, (polarization I Q U mu W2 d).pa, (polarization I Q U mu W2 d).paErr) := by
+  unfold Gen.calculate_polarization polarization
+  rl_simp
+  by_cases h1 : (1.0 : ℝ) < I <;> by_cases h2 : (0.0 : ℝ) < mu <;>
+    by_cases h3 : √(Q * Q + U * U) / I * mu * (√(Q * Q + U * U) / I * mu) < (2.0 : ℝ) <;>
+    by_cases h4 : (0.0 : ℝ) < √(Q * Q + U * U) / I * mu <;> cases d <;> simp [h1, h2, h3, h4] <;> norm_num
+
+theorem gen_stokes_errors_eq_model (I Q U mu W2 : ℝ) :
+    Gen.calculate_stokes_errors I Q U mu W2 =
+      (let s := stokesErrors I Q U mu W2; (s.QN, s.UN, s.dI, s.dQ, s.dU, s.dQN, s.dUN, s.cov, s.pval, s.conf)) := by
+  unfold Gen.calculate_stokes_errors stokesErrors
+  rl_simp
+  by_cases h1 : (0.0 : ℝ) < I <;>
+    by_cases h2 : Q / I * mu * (Q / I * mu) ≤ (2.0 : ℝ) <;> by_cases h3 : U / I * mu * (U / I * mu) ≤ (2.0 : ℝ) <;> simp [h1, h2, h3]
+
+theorem gen_mdp_eq_model (mu I W2 : ℝ) : Gen.calculate_mdp99 mu I W2 true = mdp99 mu I W2 := by
+  unfold Gen.calculate_mdp99 mdp99
+  rl_simp
+  by_cases h1 : (0.0 : ℝ) < I ∧ (0.0 : ℝ) < mu <;> simp [h1]
+
+theorem gen_neff_eq_model (c I W2 : ℝ) : (Gen.calculate_n_eff c I W2).1 = nEff I W2 := by
+  unfold Gen.calculate_n_eff nEff
+  rl_simp
+  by_cases h1 : (0.0 : ℝ) < I <;> simp [h1]
+
+/-- the headline ranges, restated on the generated code -/
+theorem gen_ranges (I Q U mu W2 : ℝ) :
+    0 ≤ (Gen.calculate_polarization I Q U mu W2 true).1 ∧ |(Gen.calculate_polarization I Q U mu W2 true).2.2.1| ≤ 90 ∧
+      0 ≤ Gen.calculate_mdp99 mu I W2 true ∧ Gen.calculate_mdp99 mu I W2 true ≤ 1 := by
+  rw [gen_polarization_eq_model, gen_mdp_eq_model]
+  exact ⟨pd_nonneg I Q U mu W2 true, pa_abs_le_90 I Q U mu W2, (mdp_in_unit mu I W2).1, (mdp_in_unit mu I W2).2⟩
 
 end C02
 end
